@@ -18,6 +18,7 @@ func init() {
 			"(R06.3) GarbleActionID has one definition, addGarbleToHash(actionID(BuildID)); " +
 			"(R06.4) -V=full is answered, for every tool that has a transform, with a build id computed by addGarbleToHash; " +
 			"(R06.5) the linker stamp compared and written is getCurrentVersion(goVersion, hash of every patch file's bytes) with the same operands on both sides; " +
+			"(R06.7) under -literals the name of every -X variable goes into the build hash, without a filter; " +
 			"(R06.6) a value that garble compiles into package P and derives from a GarbleActionID uses P's own action ID: cmd/go recompiles P only when P's action ID changes. " +
 			"Does not decide the completeness of cmd/go's own action IDs nor that an unchanged rebuild recompiles nothing.",
 		perConfig: checkC06,
@@ -116,6 +117,7 @@ func checkC06(c *Ctx) {
 	checkToolVersion(c)
 	checkLinkerStamp(c)
 	checkForeignActionIDs(c)
+	checkXNamesHashed(c)
 }
 
 // R06.2
@@ -524,5 +526,63 @@ func checkForeignActionIDs(c *Ctx) {
 	}
 	if n == 0 {
 		c.Undecided("R06.6", "transformCompile", w.Pos(tc.Pos()), "no call of magicValue/entryOffKey found in transformCompile")
+	}
+}
+
+// R06.7. With -literals the set of -ldflags=-X variables decides which string initialisers
+// the compiler leaves alone, and cmd/go only re-links when ldflags change, so every such
+// name must enter the build hash. The names are written in a loop over
+// flagValues(ldflags, "-X"); a "continue" in that loop drops names from the hash (package
+// main is addressed as main.name and is not a listed import path, a test variant has
+// another path, ...), and two builds that differ only in those names share cached packages.
+func checkXNamesHashed(c *Ctx) {
+	w := c.W
+	c.Rule("R06.7", "under -literals every -X variable name is written into the build hash: no path through the loop skips the write", 1)
+	af := w.Fn("appendFlags")
+	if af == nil {
+		c.Undecided("R06.7", "appendFlags", "", "function not found")
+		return
+	}
+	// the loop body is the yield function handed to the iterator returned by flagValues
+	var bodies []*ssa.Function
+	for name, fn := range w.funcs {
+		if strings.HasPrefix(name, "appendFlags$") {
+			bodies = append(bodies, fn)
+		}
+	}
+	n := 0
+	for _, body := range bodies {
+		var writes []ssa.Instruction
+		for _, b := range body.Blocks {
+			for _, in := range b.Instrs {
+				if call, ok := in.(*ssa.Call); ok && calleeName(call) == "io.WriteString" {
+					if len(call.Call.Args) == 2 {
+						if _, isConst := constString(call.Call.Args[1]); !isConst {
+							writes = append(writes, in) // the name itself, not the " -X=" separator
+						}
+					}
+				}
+			}
+		}
+		if len(writes) == 0 {
+			continue
+		}
+		n++
+		bad := ""
+		for _, r := range returnsOf(body) {
+			dominated := false
+			for _, wr := range writes {
+				if dominatesInstr(wr, r) {
+					dominated = true
+				}
+			}
+			if !dominated {
+				bad = "the loop over the -X flags can finish an iteration at " + w.Pos(r.Pos()) + " without writing the variable's name into the hash: builds that differ only in such names reuse each other's cached packages, whose literals were obfuscated for a different set of -X targets"
+			}
+		}
+		c.Check(bad == "", "R06.7", "appendFlags: -X names", w.Pos(body.Pos()), "every iteration writes the name", bad)
+	}
+	if n == 0 {
+		c.Bad("R06.7", "appendFlags: -X names", w.Pos(af.Pos()), "appendFlags no longer writes the names of the -X variables into the hash (F4)")
 	}
 }
